@@ -538,6 +538,7 @@ fn main() {
             ("128-bit-or-non-finite", 250),
             ("enum-variant", 230),
             ("error-chain", 120),
+            ("error-chain:three-links-holding-their-source-inline", 60),
             ("capture-serde", 400),
             ("capture-sval", 400),
             ("sink-file", 600),
